@@ -19,9 +19,6 @@ func c05ReplyOK(e *vEnv, t *hotline.Transaction, res []hotline.Transaction) bool
 	return false
 }
 
-func f(id [2]byte, data []byte) hotline.Field { return hotline.NewField(id, data) }
-
-var c05Name = f(hotline.FieldFileName, []byte("target.txt"))
 
 func c05PathMenu() []byte {
 	switch vChoice("path_menu", 4) {
